@@ -486,7 +486,8 @@ def run_trig(case, stt):
     for a, b, r in zip(g, g2, np.asarray(ref).ravel()):
         if fn == "tan" and abs(r) > 1e3:
             continue
-        tol = 1e-15 * max(1.0, abs(complex(r))) * (4 if fn == "tan" else 1)
+        # 2 pi frac is formed in float64 (argument error ~ pi * eps): the function's own error is that times its derivative
+        tol = 1e-15 * (1.0 + abs(complex(r)) ** 2 if fn == "tan" else 1.0)
         check(abs(complex(a) - complex(r)) <= tol, "{}(phase) = {!r}, function of 2 pi frac = {!r}", fn, a, complex(r))
         check(abs(complex(a) - complex(b)) <= tol, "{}(phase + {}) = {!r} differs from {}(phase) = {!r}", fn, case["add"], b, fn, a)
     stt.nt(any(abs(c) >= 2**33 for c in ps["count"]) and any(f != 0 for f in ps["frac"]))
